@@ -50,6 +50,9 @@ class Ctx:
         self.extra = {}
         self.action_coverage = {}
         self.known = findings.load(pid)
+        import glob
+        for old in glob.glob(os.path.join(VERIF, "replays", pid + "-*.json")):
+            os.remove(old)          # replays are rewritten by every run of this property's check
         self.sig_counts = {}
         self.suppressed = 0
 
